@@ -16,11 +16,20 @@ MANIFEST = {
             "(failure_never_establishes), cleartext CoAP at the DTLS endpoint creates no session and no output "
             "(cleartext_coap_at_dtls_endpoint_dropped); exact step theorems for the failure path on every protocol (one NACK per "
             "queued CON, queues empty: queued_con_one_nack_on_failure_partial, tls_queued_con_one_nack_on_failure), release and the "
-            "in-order flush (DTLS: NSTART prefix; TLS: the whole queue).  M is tied to the compiled code by exact trace equality on "
+            "in-order flush (DTLS: NSTART prefix; TLS: the whole queue).  Block mode (COAP_BLOCK_USE_LIBCOAP: the lg_crcv list made by "
+            "coap_send_lkd, expired by a response / a timeout, reported by coap_session_disconnected_lkd only when nothing else was) is "
+            "part of M: a queued Confirmable that also has an lg_crcv entry (Observe) is named by exactly one NACK of the failure step "
+            "(queued_con_exactly_one_nack_on_failure, a count).  A second model (Coap.PskSelect) transcribes libcoap's SERVER-SIDE "
+            "credential callbacks (post_client_hello_gnutls_psk with its per-context SNI cache, psk_server_callback, "
+            "coap_get_session_server_psk_key): whatever handshakes a server context has seen before, the key handed to the TLS library "
+            "for a server name and identity is the one S says is configured for them (server_key_history_independent), and S accepts a "
+            "configuration only if that key is the client's (accepts_ok_key).  M is tied to the compiled code by exact trace equality on "
             "scenarios run with the REAL GnuTLS on both sides: DTLS on a virtual clock and a scripted wire with loss / duplication / "
             "cleartext injection; TLS over REAL loopback TCP sockets (server and client context in one process, one epoll event per "
             "step, five interleavings of connect / accept / first coap_send incl. the coap_client_delay_first wait); the oracle's "
-            "answers are observed through wrapped gnutls_* calls and replayed into M; the property is also read off the "
+            "answers are observed through wrapped gnutls_* calls and replayed into M; DTLS scenarios also run EARLIER clients (other "
+            "keys / identities / server names) against the same server context, and libcoap's own credential callbacks are observed "
+            "through trampolines (key handed to GnuTLS per identity / server name) and compared with Coap.PskSelect and with S; the property is also read off the "
             "implementation's own output and everything written to the wire is scanned for bytes outside (D)TLS records; the "
             "observed handshake verdict is judged against a credential specification S.",
     "note": "Partial: the handshake and record protection are GnuTLS's (oracle; trusted to report success only when both sides accepted "
@@ -40,7 +49,9 @@ REQUIRED_THEOREMS = ["no_handler_before_hsOk", "no_cleartext_on_dtls_session", "
                      "server_life_gated", "mark_iff_oracle_ok",
                      "tls_no_handler_before_hsOk", "tls_nothing_written_before_hsOk", "tls_client_life_gated", "tls_server_life_gated",
                      "tls_queued_con_one_nack_on_failure", "tls_queued_con_one_nack_on_release",
-                     "tls_queued_delivered_in_order_once_on_success", "queued_con_one_nack_on_release_any"]
+                     "tls_queued_delivered_in_order_once_on_success", "queued_con_one_nack_on_release_any",
+                     "queued_con_exactly_one_nack_on_failure", "send_before_established_is_held_block_mode",
+                     "server_key_history_independent", "accepts_ok_key"]
 RULE = ("one line = one whole scenario with the REAL GnuTLS on both sides in one process (virtual clock for libcoap and GnuTLS, "
         "scripted wire): a server context with a DTLS endpoint configured by coap_context_set_psk2 (default key, identity table, "
         "hint, SNI table) and a client session from coap_new_client_session_psk2 (identity, key, hint callback, SNI); credential "
@@ -49,7 +60,9 @@ RULE = ("one line = one whole scenario with the REAL GnuTLS on both sides in one
         "after the session is created; per datagram deliver / drop / duplicate during and after the handshake; cleartext CoAP "
         "injected at the DTLS endpoint from the client's address and from another one and a forged cleartext response injected "
         "at the client's socket, before / during / after the handshake; early release of the session; the server's idle "
-        "timeout.  `tls` lines: the same over TLS on REAL loopback TCP sockets (harness/tls.c: server context with a TLS endpoint on "
+        "timeout; bm=1: the client context uses COAP_BLOCK_USE_LIBCOAP and the queue also holds Observe registrations (O CON, M NON), "
+        "so that queued requests have lg_crcv entries; pre=: one or two EARLIER client sessions (same / other key, identity, server "
+        "name incl. prefixes / extensions of known names) complete or fail their handshake against the same server context first.  `tls` lines: the same over TLS on REAL loopback TCP sockets (harness/tls.c: server context with a TLS endpoint on "
         "127.0.0.1 port 0 and a client context in one process, coap_io_do_epoll driven one event at a time, alternating, until "
         "nothing is ready and no written byte is unacknowledged; wall-clock watchdog): every credential configuration x five "
         "interleavings (connect() completing at once = requests queued in HANDSHAKE state; connect in progress = the first "
@@ -62,14 +75,15 @@ TRUSTED_BASE = ["Lean 4.33 kernel; axioms allowed: propext, Classical.choice, Qu
                 "protection; its answers are observed per case through wrapped gnutls_* calls and replayed into M",
                 "harness/dtls.c on sim_core.h (virtual clock incl. GnuTLS' via _gnutls_global_set_gettime_function, scripted "
                 "datagram network, --wrap of the GnuTLS entry points libcoap uses and of coap_dtls_send / "
-                "coap_dtls_handle_timeout / coap_retransmit), harness/dtls_pipe.py, generators and the python oracle that "
-                "reads the implementation's own output",
+                "coap_dtls_handle_timeout / coap_retransmit / coap_block_check_lg_crcv_timeouts, trampolines installed by wrapping "
+                "gnutls_psk_set_server_credentials_function / gnutls_handshake_set_post_client_hello_function), harness/dtls_pipe.py, "
+                "generators and the python oracle that reads the implementation's own output",
                 "harness/tls.c (real loopback TCP, real time; --wrap of connect (conn=now: the TCP handshake completes inside the "
                 "call; TCP_NODELAY), coap_io_process_lkd (the wait of coap_client_delay_first runs the harness' loop and is told "
                 "6 s have passed once nothing moves), coap_tls_write, coap_netif_strm_write (the sniffer), coap_free_type and the "
                 "GnuTLS entry points)",
-                "M (CoapVerif/Model/TlsGate.lean) is a hand transcription of libcoap's DTLS and TLS session gating; checked against "
-                "the compiled code only on the scenarios run"]
+                "M (CoapVerif/Model/TlsGate.lean, CoapVerif/Model/PskSelect.lean) is a hand transcription of libcoap's DTLS and TLS "
+                "session gating and of its server-side PSK callbacks; checked against the compiled code only on the scenarios run"]
 ASSUMPTIONS = ["partial: the handshake itself and record protection are GnuTLS's (oracle); what is proved is libcoap's gating given "
                "the oracle's answers",
                "partial: TLS over TCP is modelled for one CoAP message per TLS record (SPEC DECISION D19c); the TLS run explores five "
@@ -79,6 +93,12 @@ ASSUMPTIONS = ["partial: the handshake itself and record protection are GnuTLS's
                "request already WRITTEN on an established TLS session is not tracked (reliable transport): its fate is C05/C06's",
                "'exactly one NACK' is about requests held in the delay queue (D19a); a queued NON is dropped silently (D19b)",
                "dispatch is modelled for the messages a GET exchange produces (request, piggy-backed / NON response, empty ACK, RST)",
+               "block mode: lg_crcv entries are modelled for GET requests with / without an Observe option against a resource that is not "
+               "observable (no Block1/Block2 transfer, no OSCORE, no 4.01 Echo); a response matches an entry by its application token "
+               "(the harness seeds session->tx_token so that libcoap's internal state tokens cannot equal its one-byte tokens); with an "
+               "lg_crcv entry a queued NON may be reported once by coap_session_disconnected_lkd when nothing else was (D19g)",
+               "Coap.PskSelect: the application's callbacks are functions of their argument; server names compared as given (lower case); "
+               "identities without NUL bytes; the `pre=` scenarios run on DTLS only (the callbacks are the same code for TLS)",
                "compiled Lean definitions agree with the kernel's reading of them"]
 SPEC_DECISIONS = ["D19a exactly-one-NACK is about requests queued before establishment; in-flight CONs at teardown are C06/C07's",
                   "D19b a queued Non-confirmable request is dropped silently on failure",
@@ -87,11 +107,16 @@ SPEC_DECISIONS = ["D19a exactly-one-NACK is about requests queued before establi
                   "D19f TLS: NACK reasons accepted for a queued request are TLS_FAILED, TLS_LAYER_FAILED and NOT_DELIVERABLE "
                   "(coap_read_session / coap_session_mfree use the latter on reliable transports)",
                   "D19d no client session with an empty key/identity; an empty server key accepts nobody",
-                  "D19e absent callbacks accept everything; an SNI table does not know names outside it"]
+                  "D19e absent callbacks accept everything; an SNI table does not know names outside it",
+                  "D19g block mode: a queued NON that has an lg_crcv entry may be NACKed (at most once, not after the release); the "
+                  "property only bounds the NACKs of Confirmable requests",
+                  "D19h what a server accepts is a function of its configuration and the client's server name / identity / key — not of "
+                  "the clients it has served before (S.serverKey); an empty key is nobody's"]
 RUN_KW = {"timeout": 900}
 WRAPS = SIM_WRAPS + ["coap_dtls_send", "coap_dtls_handle_timeout", "coap_retransmit", "coap_free_type", "gnutls_handshake",
                      "gnutls_record_recv", "gnutls_record_send", "gnutls_bye", "gnutls_alert_send", "gnutls_dtls_cookie_verify",
-                     "gnutls_dtls_cookie_send", "gnutls_init"]
+                     "gnutls_dtls_cookie_send", "gnutls_init", "coap_block_check_lg_crcv_timeouts",
+                     "gnutls_psk_set_server_credentials_function", "gnutls_handshake_set_post_client_hello_function"]
 
 
 TLS_WRAPS = ["coap_tls_write", "coap_free_type", "coap_netif_strm_write", "coap_io_process_lkd", "connect", "gnutls_handshake",
@@ -166,8 +191,47 @@ CREDS = [
     ("sni-hint-rejected", ["sni=686f7374", "ss=686f7374:68:" + K1, "ih=69", "sh=69"]),
     ("sni-table-and-idtable", ["sni=686f7374", "ss=686f7374:68:" + K2, "st=6964:" + K1]),
     ("sni-table-and-idtable-unknown", ["sni=686f7374", "ss=686f7374:68:" + K1, "st=6162:" + K1]),
+    # two server names, one a prefix of the other, different keys (the SNI cache is searched by name)
+    ("sni-prefix-name-first", ["sni=686f7374", "ss=686f73:68:" + K2 + ",686f7374:68:" + K1]),
+    ("sni-prefix-name-asked", ["sni=686f73", "ss=686f7374:68:" + K2 + ",686f73:69:" + K1]),
+    ("sni-longer-name-asked", ["sni=686f737478", "ss=686f7374:68:" + K2 + ",686f737478:68:" + K1]),
 ]
 QS = ["", "C", "N", "CC", "CN", "NC", "NN", "CCC", "CNC", "NCC", "CCN", "NNC", "NCN", "CNN", "NNN"]
+# block mode (bm=1: the client context uses COAP_BLOCK_USE_LIBCOAP): O / M = Confirmable / Non-confirmable GET with an Observe
+# option; every O, M and N then has an lg_crcv entry next to its place in the delay queue
+QS_BM = ["O", "M", "CO", "OC", "OO", "NO", "ON", "MC", "CM", "OM", "MO", "N", "NN", "OCO", "COC", "NOC", "CNO", "MMO", "OON", "C", "CC"]
+CON_KINDS = "CO"
+
+
+def gen_queue(rng, bm):
+    if not bm:
+        return rng.choice(QS)
+    if rng.random() < 0.5:
+        return rng.choice(QS_BM)
+    return "".join(rng.choice("CNOM") for _ in range(rng.randrange(0, 4)))
+
+
+def gen_pre(rng, words):
+    """earlier clients against the same server context: the same client again, the same with another key (the server's
+    default key, a key of the SNI / identity table, …), another identity, another / no server name"""
+    cfg = dict(w.split("=", 1) for w in words)
+    keys = {"=", K1, K2, cfg.get("sk", K1), cfg.get("ck", K1)}
+    names = {"=", "-", "686f7374", "686f7375"}
+    ids = {"=", "=", "6964", "6162"}
+    for e in cfg.get("ss", "").split(","):
+        f = e.split(":")
+        if len(f) == 3:
+            names.add(f[0]); keys.add(f[2])
+            names.add(f[0][:-2]); names.add(f[0] + "78")          # a prefix / an extension of a known name
+    for e in cfg.get("st", "").split(","):
+        f = e.split(":")
+        if len(f) == 2:
+            ids.add(f[0]); keys.add(f[1])
+    keys = sorted(k for k in keys if k not in ("-", ""))
+    out = []
+    for _ in range(rng.choice([1, 1, 2])):
+        out.append("%s:%s:%s" % (rng.choice(keys), rng.choice(sorted(ids)), rng.choice(sorted(names))))
+    return "pre=" + ",".join(out)
 
 
 def gen_fate(rng):
@@ -194,7 +258,12 @@ def gen_fate(rng):
 def gen_line(rng, cred=None, q=None):
     label, words = cred if cred else rng.choice(CREDS)
     w = list(words)
-    w.append("q=" + (q if q is not None else rng.choice(QS)))
+    bm = rng.random() < 0.25
+    if bm:
+        w.append("bm=1")
+    if rng.random() < 0.2:
+        w.append(gen_pre(rng, words))
+    w.append("q=" + (q if q is not None else gen_queue(rng, bm)))
     f = gen_fate(rng)
     if f:
         w.append("f=" + f)
@@ -218,7 +287,10 @@ TLS_SCHED = [[], ["conn=prog"], ["conn=prog", "acc=early"], ["conn=prog", "wait=
 def gen_tls_line(rng, cred=None, q=None, sched=None):
     label, words = cred if cred else rng.choice(CREDS)
     w = list(words) + list(sched if sched is not None else rng.choice(TLS_SCHED))
-    w.append("q=" + (q if q is not None else rng.choice(QS)))
+    bm = rng.random() < 0.25
+    if bm:
+        w.append("bm=1")
+    w.append("q=" + (q if q is not None else gen_queue(rng, bm)))
     if rng.random() < 0.1:
         w.append("rel=now")
     rng.shuffle(w)
@@ -236,6 +308,8 @@ def generate_tls(ctx, escalate=False):
             for q in (QS if ctx.thorough() else [qs[k % len(qs)]]):
                 out.append("tls " + " ".join(list(cred[1]) + sch + ["q=" + q]))
             k += 1
+        # block mode: every request of a reliable session has an lg_crcv entry
+        out.append("tls " + " ".join(list(cred[1]) + TLS_SCHED[k % len(TLS_SCHED)] + ["bm=1", "q=" + ["C", "CC", "ON", "NC"][k % 4]]))
     n = 4000 if ctx.thorough() else 400
     if escalate:
         n *= 2
@@ -250,6 +324,23 @@ def generate(ctx, escalate=False):
     for cred in CREDS:
         for q in (QS if ctx.thorough() else ["", "C", "N", "CN", "NC", "CCC", "NCN"]):
             out.append("dtls " + " ".join(list(cred[1]) + ["q=" + q]))
+    # every credential configuration in block mode: Observe registrations / Non-confirmables (lg_crcv entries) queued
+    for k, cred in enumerate(CREDS):
+        for q in (QS_BM if ctx.thorough() else ["O", ["CO", "OC", "OO", "MO"][k % 4], ["NM", "ON", "N", "MC"][k % 4]]):
+            out.append("dtls " + " ".join(list(cred[1]) + ["bm=1", "q=" + q]))
+    # every credential configuration on a server context that has served a client before: the same client; a client with the
+    # same identity / server name but ANOTHER key (the server's default key, the other test key); then the same one twice
+    for cred in CREDS:
+        cfg = dict(w.split("=", 1) for w in cred[1])
+        other = [k for k in (cfg.get("sk", K1), K2, K1) if k not in ("-", cfg.get("ck", K1))]
+        pres = ["=:=:=", "%s:=:=" % other[0], "=:=:=,%s:=:=" % other[0], "%s:=:=,=:=:=" % other[-1]]
+        for pre in (pres if ctx.thorough() else pres[:3]):
+            out.append("dtls " + " ".join(list(cred[1]) + ["pre=" + pre, "q=C"]))
+        # … a client that asked for ANOTHER server name of the table (with that name's key): fills the cache with that name
+        for e in cfg.get("ss", "").split(","):
+            f = e.split(":")
+            if len(f) == 3 and f[0] != cfg.get("sni") and f[2] != "-":
+                out.append("dtls " + " ".join(list(cred[1]) + ["pre=%s:=:%s" % (f[2], f[0]), "q=C"]))
     n = 40000 if ctx.thorough() else 3000
     if escalate:
         n *= 2
@@ -262,7 +353,7 @@ def is_tls(line):
 
 
 # ------------------------------------------------------------------ reading a canonical line
-SEG = re.compile(r"^([cst]):([^/]*)/([^>]*)>([^|]*)\|(.*)$")
+SEG = re.compile(r"^([cstpr]):([^/]*)/([^>]*)>([^|]*)\|(.*)$")
 
 
 def parse_segments(s):
@@ -278,17 +369,92 @@ def parse_segments(s):
 
 
 def split_impl(i):
-    """'<I segs> | wire … | hs … || <M segs>' -> (segs, wire dict, hs dict, model string)"""
-    body, _, model = i.partition(" || ")
+    """'<I segs> | wire … | hs … [| cred …] || <M segs> [|| M <cred> | S <cred>]' -> (segs, wire dict, hs dict, model string,
+    (I cred events, M's, S's) or None)"""
+    body, _, rest = i.partition(" || ")
+    model, _, credms = rest.partition(" || ")
     parts = body.split(" | ")
     wire, hs = {}, {}
+    cred = None
     for p in parts[1:]:
         w = p.split()
+        if w[0] == "cred":
+            cred = [e for e in w[1:] if e != "-"]
+            continue
         d = wire if w[0] == "wire" else hs
         for kv in w[1:]:
             k, _, v = kv.partition("=")
             d[k] = v
-    return parts[0], wire, hs, model
+    if cred is not None:
+        m = re.match(r"^M (.*) \| S (.*)$", credms)
+        cm, cs = (m.group(1).split(), m.group(2).split()) if m else (["<%s>" % credms], [])
+        cred = (cred, [e for e in cm if e != "-"], [e for e in cs if e != "-"])
+    return parts[0], wire, hs, model, cred
+
+
+def cfg_words(line):
+    return line.split()[1:]
+
+
+def phases(inp, isegs, expect_all):
+    """a `pre=` scenario is several client sessions against ONE server context, one after the other; each is judged like a
+    scenario of its own: -> [(derived input line, segments with who p/r renamed to c/s, S's verdict for that client)]"""
+    words = cfg_words(inp)
+    m = re.match(r"^expect=(\w+)(?: pre=([\w,]+))?$", expect_all.strip())
+    if not m:
+        raise ValueError("S answered %r" % expect_all)
+    exp_main, exp_pre = m.group(1), (m.group(2).split(",") if m.group(2) else [])
+    pre = [w for w in words if w.startswith("pre=")]
+    pres = [e.split(":") for e in pre[0][4:].split(",")] if pre and pre[0] != "pre=-" else []
+    if len(pres) != len(exp_pre):
+        raise ValueError("pre= has %d clients, S answered for %d" % (len(pres), len(exp_pre)))
+    if not pres:
+        return [(inp, isegs, exp_main, "")]
+    groups, cur = [], None
+    for sg in isegs.split(" ; "):
+        who, ev = sg[0], sg[2:].split("/", 1)[0]
+        if who in "pc" and ev in ("new", "newb", "new:fail"):
+            cur = [who, []]
+            groups.append(cur)
+        if cur is None:
+            raise ValueError("segment before the first client session: %r" % sg[:60])
+        if who != "t" and (who in "pr") != (cur[0] == "p"):
+            raise ValueError("segment %r in the phase of client %s" % (sg[:60], cur[0]))
+        cur[1].append({"p": "c", "r": "s"}.get(who, who) + sg[1:])
+    if [g[0] for g in groups] != ["p"] * len(pres) + ["c"]:
+        raise ValueError("client sessions seen %s, expected %d earlier ones and the main one" % ([g[0] for g in groups], len(pres)))
+    out = []
+    base = [w for w in words if w.split("=")[0] not in ("pre", "q", "f", "inj", "rel", "idle")]
+    main = dict(w.split("=", 1) for w in base)
+    for (k, i, sn), g, e in zip(pres, groups, exp_pre):
+        w = [x for x in base if x.split("=")[0] not in ("ck", "ci", "sni")]
+        ck, ci, sni = (main.get("ck") if k == "=" else k), (main.get("ci") if i == "=" else i), (main.get("sni") if sn == "=" else sn)
+        w += ["%s=%s" % kv for kv in (("ck", ck), ("ci", ci), ("sni", sni)) if kv[1] is not None]
+        out.append(("dtls " + " ".join(w + ["q=C"]), " ; ".join(g[1]), e, "earlier client %s:%s:%s: " % (k, i, sn)))
+    out.append((inp, " ; ".join(groups[-1][1]), exp_main, ""))
+    return out
+
+
+def cred_judge(cred):
+    """the key libcoap's callbacks handed the TLS library, event by event: against S (a contradiction: the client is checked
+    against a key that is not the one configured for its server name / identity) and against M (correspondence)"""
+    ci, cm, cs = cred
+    norm = lambda e: re.sub(r"^(psk:[^:]*):e$", r"\1:fail", e)
+    names = []
+    for k, e in enumerate(ci):
+        if e.startswith("pch:"):
+            names.append(e.split(":")[1])
+        if k < len(cs) and norm(e) != norm(cs[k]):
+            what = ("server name %s" % (names[-1] if names else "-")) if e.startswith("psk:") else "the ClientHello"
+            return ("spec", "server-side credential callback %d (%s; handshake no. %d on this server context): libcoap answered `%s`, "
+                    "the configuration says `%s`" % (k, what, ci[:k + 1].count("ses"), e, cs[k]))
+    if ci != cm:
+        for k in range(max(len(ci), len(cm))):
+            x = ci[k] if k < len(ci) else "<nothing>"
+            y = cm[k] if k < len(cm) else "<nothing>"
+            if x != y:
+                return ("tie", "server-side credential callback %d: implementation `%s` but model M (Coap.PskSelect) `%s`" % (k, x, y))
+    return None
 
 
 def cfg_of(line):
@@ -305,6 +471,8 @@ def oracle(inp, isegs, wire, expect):
     q = cfg.get("q", "")
     fates = cfg.get("f", "")
     tls = is_tls(inp)
+    bm = cfg.get("bm") == "1"          # block mode: a NON (and every request on TLS) has an lg_crcv entry, whose request
+    lgnack = tls or bm                 # coap_session_disconnected_lkd may report when nothing else was (at most once)
     segs = parse_segments(isegs)
     if wire.get("cleartext") != "no":
         return "a datagram / TCP write of the (D)TLS session / endpoint is not made of (D)TLS records, was written outside the TLS library or carries a queued payload in clear (wire %s)" % wire
@@ -382,14 +550,14 @@ def oracle(inp, isegs, wire, expect):
             return "client session ESTABLISHED without a completed handshake"
         for t, kind in zip(toks, q):
             ns = nacks.get(t, [])
-            if kind == "C":
+            if kind in CON_KINDS:
                 if len(ns) != 1:
                     return "queued CON %s was reported by %d NACKs (%s), expected exactly one (handshake never completed)" % (t, len(ns), ns)
                 if ns[0][0] not in nack_ok:
                     return "queued CON %s NACKed with reason %s, expected a TLS failure" % (t, ns[0][0])
                 if ns[0][2]:
                     return "queued CON %s NACKed only after the session had been released" % t
-            elif ns and not (tls and len(ns) == 1 and not ns[0][2]):
+            elif ns and not (lgnack and len(ns) == 1 and not ns[0][2]):
                 return "queued NON %s was NACKed (%s)" % (t, ns)
         if reqs or rsps:
             return "handler calls without a completed handshake: %s %s" % (reqs, rsps)
@@ -403,11 +571,11 @@ def oracle(inp, isegs, wire, expect):
         ns = nacks.get(t, [])
         if t not in first_tx:
             # never written: the session went away first -> exactly one NACK for a CON
-            if kind == "C" and len(ns) != 1:
+            if kind in CON_KINDS and len(ns) != 1:
                 return "queued CON %s was never written and reported by %d NACKs (%s)" % (t, len(ns), ns)
-            if kind == "N" and ns and not (tls and len(ns) == 1):
+            if kind not in CON_KINDS and ns and not (lgnack and len(ns) == 1):
                 return "queued NON %s was NACKed (%s)" % (t, ns)
-        elif kind == "C" and not ns and not rsps.get(t) and not (tls and "rel" in cfg):
+        elif kind in CON_KINDS and not ns and not rsps.get(t) and not (tls and "rel" in cfg):
             # (a request WRITTEN on a reliable transport is not tracked any more: releasing the session then is silent)
             return "queued CON %s was written but has neither a response nor a NACK at the end" % t
     ded = [t for i, t in enumerate(reqs) if t not in reqs[:i]]
@@ -431,13 +599,20 @@ def judge(ctx, c):
     if " | wire " not in i:
         return ("tie", "harness could not set the scenario up: %s" % i[:100])
     try:
-        isegs, wire, hs, mseg = split_impl(i)
-        expect = (m or "").replace("expect=", "").strip()
-        why = oracle(c["input"], isegs, wire, expect)
+        isegs, wire, hs, mseg, cred = split_impl(i)
+        why = None
+        for inp_k, segs_k, expect_k, label in phases(c["input"], isegs, m or ""):
+            why = oracle(inp_k, segs_k, wire, expect_k)
+            if why:
+                why = label + why
+                break
+        cj = cred_judge(cred) if cred else None
     except Exception as e:
         return ("tie", "unreadable harness output (%s): %s" % (e, i[:200]))
     if why:
         return ("spec", why)
+    if cj and cj[0] == "spec":
+        return cj
     if isegs != mseg:
         a, b = isegs.split(" ; "), mseg.split(" ; ")
         for k in range(max(len(a), len(b))):
@@ -445,7 +620,7 @@ def judge(ctx, c):
             y = b[k] if k < len(b) else "<nothing>"
             if x != y:
                 return ("tie", "segment %d: implementation `%s` but model M `%s`" % (k, x[:200], y[:200]))
-    return None
+    return cj
 
 
 def nontrivial(c):
@@ -459,10 +634,10 @@ def classify(c):
     m = c["model"] or ""
     hs = re.search(r"hs c=(\w+) s=(\w+)", i)
     cfg = cfg_of(c["input"])
-    return "%s%s hs=%s q=%d%s%s%s" % ("tls " + " ".join(sorted(w for w in c["input"].split() if w.split("=")[0] in ("conn", "acc", "wait"))) + " "
+    return "%s%s hs=%s q=%d%s%s%s%s%s" % ("tls " + " ".join(sorted(w for w in c["input"].split() if w.split("=")[0] in ("conn", "acc", "wait"))) + " "
                                      if is_tls(c["input"]) else "", m.strip(), hs.group(1) if hs else "?", len(cfg.get("q", "")),
                                    " loss" if "x" in cfg.get("f", "") else "", " dup" if "2" in cfg.get("f", "") else "",
-                                   " inj" if "inj" in cfg else "")
+                                   " inj" if "inj" in cfg else "", " bm" if cfg.get("bm") == "1" else "", " pre" if "pre" in cfg else "")
 
 
 def search(ctx, tie_breaks, proof):
